@@ -7,6 +7,9 @@ Request lines (harness/src/ops_pm1impl.rs, lean/Ymq/Drv/Pm1Impl.lean); everythin
   pm1_impl n b1 b2 blocks p1 p2   both found in stage 1, by gcd checks of different sieve blocks (b1 > 65536): order [p1, p2]
   pm1_impl n b1 b2 sq p           p*p | n, p - 1 | stage-1 exponent
   pm1_impl n b1 b2 same l         every prime factor of n misses the same prime l
+  pm1_impl n b1 b2 sep p1 p2 l1 l2  n = p1*p2, both out of reach of stage 1, polynomial stage 2; l1 = (q-1)*d1 - 1 is the grid value that the
+                                  LAST baby step r = d1 + 1 produces at the multiplier q (and r = 1 at q - 1), l2 = (q-1)*d1 - r2 is produced at q - 1
+                                  only: p1 enters the running product one evaluation point before p2, so gcd_factors must return both (family `sep/`)
   pm1_impl n b1 b2 free           no promise (small orders of 2: the `g == 1` exit; strong n: nothing found)
   pm1_quick_full n one p l / pm1_only_full n one p l / .. free
   pm1_polyeval n b2 g             pm1_stage2_polyeval alone on the residue g (hook vh_pm1_stage2_polyeval)
@@ -30,6 +33,16 @@ def _smooth_prime(H, rng, b1, top, tries=4000):
         if H.is_prime(c) and H.divides_stage1(2 * s_, min(b1, 500)) and s_ % top != 0 and pow(2, (c - 1) // top, c) != 1:
             return c
     return None
+
+
+def _stage1_exp(H, b1):
+    E = 1
+    for r in H.small_primes(b1):
+        c = r
+        while c * r < b1:
+            c *= r
+        E *= c
+    return E
 
 
 def _case(req, tag):
@@ -62,9 +75,60 @@ def poly_ls(H, rng, b1, b2):
     return out
 
 
+def sep_ls(H, b2, rows=1):
+    """Deterministic: (q, l1, l2) with l1 = (q-1)*d1 - 1 and l2 = (q-1)*d1 - r2 both prime, 3 <= r2 <= d1 - 1 a baby value, q as large
+    as possible (q = qmax is the top giant multiplier: l1 is then the value of the last baby step at the first evaluation point read).
+    Both exceed eff/2, so no multiple of them is on the grid: l1 is met at q (r = d1 + 1) and q - 1 (r = 1), l2 at q - 1 only."""
+    _, d1, d2 = H.nearest("pm1", b2)
+    qmax = H.pm1_qmax(d1, d2)
+    out = []
+    for q in range(qmax, qmax // 2 + 2, -1):
+        l1 = (q - 1) * d1 - 1
+        if not H.is_prime(l1):
+            continue
+        for r2 in range(3, d1, 2):
+            l2 = (q - 1) * d1 - r2
+            if math.gcd(r2, d1) == 1 and H.is_prime(l2):
+                out.append((q, l1, l2))
+                break
+        if len(out) >= rows:
+            break
+    return out
+
+
+def hit_qs(H, d1, d2, l):
+    """the multipliers q in [0, qmax] at which a multiple of l is a value |q*d1 - r|, r odd in [1, d1 + 1] coprime to d1
+    (read off the loops of pm1_stage2_polyeval, like H.pm1_is_grid, but keeping the evaluation point)"""
+    qmax = H.pm1_qmax(d1, d2)
+    qs = set()
+    k = 1
+    while k * l <= (qmax + 1) * d1:
+        m = k * l
+        for r in ((-m) % d1, (-m) % d1 + d1):
+            if 1 <= r <= d1 + 1 and math.gcd(r, d1) == 1 and (m + r) // d1 <= qmax:
+                qs.add((m + r) // d1)
+        if 1 <= m <= d1 + 1 and math.gcd(m, d1) == 1 and qmax >= 0:
+            qs.add(0)
+        k += 1
+    return qs
+
+
 def cases(tier, rng, H, extended=False):
     quick = tier == "quick" and not extended
     q96 = lambda: _strong(H, rng, 96)
+    # --- the last baby step r = d1 + 1: the prime l1 = (q-1)*d1 - 1 enters the running product at the multiplier q through r = d1 + 1 only,
+    #     one evaluation point before l2 = (q-1)*d1 - r2; n = p1*p2 is completely factored exactly because of that baby step.
+    #     Top multiplier q = qmax downwards, for every polynomial row within reach (the row of 1.9e6 has l1 prime at q = qmax itself).
+    sep_runs = [(600, 100000), (1000, 200000), (2000, 450000), (3000, 1900000)] + ([] if quick else [(2000, 980000), (3000, 4000000)])
+    for (b1, b2) in sep_runs:
+        for (q, l1, l2) in sep_ls(H, b2, rows=1 if quick else 3):
+            p1, p2 = H.make_pm1_prime(rng, b1, l1), H.make_pm1_prime(rng, b1, l2)
+            if not (p1 and p2) or p1 == p2:
+                continue
+            n = p1 * p2
+            yield _case(f"pm1_impl {n} {b1} {b2} sep {p1} {p2} {l1} {l2}", "sep/last-baby")
+            yield _case(f"pm1_impl {p1 * q96()} {b1} {b2} one {p1} {l1}", "sep/last-baby-one")
+            yield _case(f"pm1_polyeval {n} {b2} {pow(2, _stage1_exp(H, b1), n)}", "polyeval/sep")
     # --- one prime, prime walk: first prime above B1 (the stop prime of stage 1), last ones, both sieve blocks
     walk_runs = [(20, 40000), (200, 40000), (600, 70000), (2000, 80000)] + ([] if quick else [(600, 40000), (5000, 79999), (64000, 70000)])
     for (b1, b2) in walk_runs:
@@ -157,13 +221,7 @@ def cases(tier, rng, H, extended=False):
             p = H.make_pm1_prime(rng, b1, l)
             if p:
                 n = p * q96()
-                E = 1
-                for r in H.small_primes(b1):
-                    c = r
-                    while c * r < b1:
-                        c *= r
-                    E *= c
-                yield _case(f"pm1_polyeval {n} {b2} {pow(2, E, n)}", f"polyeval/{name}")
+                yield _case(f"pm1_polyeval {n} {b2} {pow(2, _stage1_exp(H, b1), n)}", f"polyeval/{name}")
         n = q96() * _strong(H, rng, 80)
         yield _case(f"pm1_polyeval {n} {b2} 1", "polyeval/g=1")
         yield _case(f"pm1_polyeval {n} {b2} {n - 1}", "polyeval/g=-1")
@@ -229,6 +287,16 @@ def oracle(case, ans, H):
             return f"the stage-1 factor {p1} (p1 - 1 divides the stage-1 exponent) is not returned"
         if _ann_ok(H, n, b1, p2, l) and H.covered("pm1", b1, b2, l) and p2 not in fs:
             return f"the stage-2 factor {p2} (missing prime {l} covered) is not returned"
+    elif kind == "sep":
+        p1, p2, l1, l2 = ann
+        if b2 <= H.THRESHOLD or p1 == p2 or n != p1 * p2 or not (_ann_ok(H, n, b1, p1, l1) and _ann_ok(H, n, b1, p2, l2)):
+            return None
+        _, d1, d2 = H.nearest("pm1", b2)
+        qs1, qs2 = hit_qs(H, d1, d2, l1), hit_qs(H, d1, d2, l2)
+        # the running product goes through q = qmax, qmax - 1, .., 0: p_i divides it from the point max(qs_i) on
+        if qs1 and qs2 and max(qs1) != max(qs2) and not (p1 in fs and p2 in fs):
+            return (f"P-1 (B1={b1}, B2={b2}) must split n = {p1} * {p2}: {l1} is met first at the multiplier {max(qs1)} "
+                    f"(baby step r = {max(qs1) * d1 - l1}), {l2} at {max(qs2)}: different evaluation points, gcd_factors separates them")
     elif kind == "blocks":
         p1, p2 = ann
         if p1 not in fs or p2 not in fs:
